@@ -8,6 +8,7 @@ import BV.C13.LemmasScript2
 import BV.C13.LemmasWitness
 import BV.C13.LemmasHeight
 import BV.C13.LemmasCost
+import BV.C13.LemmasMtp
 import BV.Generated.C13
 namespace BV.C13
 open Spec
@@ -280,6 +281,18 @@ theorem lockTimeToSequence_blocks (n : Nat) (hn : n < 2^16) :
     s / SEQ_DISABLE_FLAG % 2 = 0 ∧ s / SEQ_TYPE_FLAG % 2 = 0 ∧ s % (SEQ_MASK + 1) = n := by
   simp only [lockTimeToSequence, Bool.not_false, if_true, SEQ_DISABLE_FLAG, SEQ_TYPE_FLAG, SEQ_MASK]
   omega
+
+/-- that median time past is the upper median of the ≤ 11 timestamps ending at that block
+    (through C09's theorem about `CalcPastMedianTime`). -/
+theorem mtpAt_is_median (times : List Int) (height : Nat) (hne : times ≠ []) :
+    let w := ((times.take (height + 1)).reverse).take 11
+    let m := mtpAt times height
+    m ∈ w ∧ (w.filter (· < m)).length ≤ w.length / 2 ∧ (w.filter (· > m)).length ≤ (w.length - 1) / 2 := by
+  have hne' : (times.take (height + 1)).reverse ≠ [] := by
+    cases times with
+    | nil => exact absurd rfl hne
+    | cons a r => simp
+  exact Lemmas.medianTime_is_median _ hne'
 
 /-- version < 2, CSV inactive or a coinbase: no constraint (−1, −1) -/
 theorem sequenceLock_disabled (csvActive : Bool) (version : Nat) (cb : Bool) (nodeHeight : Int)
